@@ -449,13 +449,11 @@ func (f *FlowDataLocator) PutIItemAwareLocator(name string, locator IItemAwareLo
 func (f *FlowDataLocator) CloneItems(name string) map[string]IItem {
 	out := make(map[string]IItem)
 
-	f.vmu.RLock()
-	locator, ok := f.locators[name]
+	// (the locator table is guarded by lmu, not by the variables' mutex)
+	locator, ok := f.FindIItemAwareLocator(name)
 	if !ok {
-		f.vmu.RUnlock()
 		return out
 	}
-	f.vmu.RUnlock()
 
 	return locator.Clone()
 }
